@@ -1,31 +1,26 @@
+/* ll2c runtime: the few helpers the generated C needs (environment stubs for functions the TU
+ * only declares are emitted by ll2c itself with the TU's own signatures) */
 #include <stdint.h>
 #include <stdlib.h>
 #include <string.h>
 #include "ll2c_rt.h"
 int ll2c_exc_pending;
 #ifdef __CPROVER__
-#define ASSUME(x) __CPROVER_assume(x)
 #define FAIL(msg) __CPROVER_assert(0, msg)
+#define ASSUME(x) __CPROVER_assume(x)
 #else
 #include <stdio.h>
-#define ASSUME(x) do{ if(!(x)) abort(); }while(0)
-#define FAIL(msg) do{ fprintf(stderr,"FAIL %s\n",msg); abort(); }while(0)
+#define FAIL(msg) do { fprintf(stderr, "LL2C-FAIL %s\n", msg); abort(); } while (0)
+#define ASSUME(x) do { if (!(x)) abort(); } while (0)
 #endif
-void ll2c_unreachable(void){ FAIL("unreachable reached"); ASSUME(0); }
-void ll2c_trap(void){ FAIL("trap"); ASSUME(0); }
-char* g__Znwm(uint64_t n){ char* p = malloc(n); ASSUME(p!=0); return p; }
-void g__ZdlPv(char* p){ free(p); }
-uint32_t g___cxa_guard_acquire(char* g){ return *g == 0; }
-void g___cxa_guard_release(char* g){ *g = 1; }
-void g__ZSt28__throw_bad_array_new_lengthv(void){ FAIL("bad_array_new_length"); ASSUME(0); }
-void g__ZSt17__throw_bad_allocv(void){ FAIL("bad_alloc"); ASSUME(0); }
-void g__ZSt20__throw_length_errorPKc(char* m){ FAIL("length_error"); ASSUME(0); }
-void g___assert_fail(char* a, char* b, uint32_t c, char* d){ FAIL("BOOST_ASSERT"); ASSUME(0); }
-void g__ZN5boost15throw_exceptionERKSt9exception(char* e){ FAIL("boost::throw_exception"); ASSUME(0); }
-void g__ZNSt9exceptionD1Ev(char* e){}
-void g__ZNSt13runtime_errorD2Ev(char* e){}
-void g__ZNSt13runtime_errorC2EPKc(char* e, char* m){}
-char* g__ZNKSt13runtime_error4whatEv(char* e){ return (char*)"what"; }
-uint32_t g___cxa_atexit(char* f, char* a, char* d){ return 0; }
-char* g__ZnwmRKSt9nothrow_t(uint64_t n, char* t){ char* p = malloc(n); ASSUME(p!=0); return p; }
-void ll2c_bad_indirect_call(void){ FAIL("indirect call target outside candidate set"); ASSUME(0); }
+void ll2c_unreachable(void) { FAIL("env:unreachable reached"); ASSUME(0); }
+void ll2c_trap(void) { FAIL("env:trap (container bound exceeded or library abort)"); ASSUME(0); }
+void ll2c_bad_indirect_call(void) { FAIL("env:indirect call target outside candidate set"); ASSUME(0); }
+void ll2c_fail(const char* msg) {
+#ifdef __CPROVER__
+  __CPROVER_assert(0, "env:library failure path reached");
+#else
+  fprintf(stderr, "LL2C-FAIL %s\n", msg); abort();
+#endif
+  ASSUME(0);
+}
